@@ -5,6 +5,7 @@ import (
 	"fmt"
 	"math/big"
 	"sort"
+	"sync"
 	"time"
 
 	"github.com/bartossh/Computantis/src/accountant"
@@ -15,9 +16,9 @@ import (
 
 func extraJobs(tier string) []job {
 	var j []job
-	nTrunc, nPerm, nLoad := 2, 24, 16
+	nTrunc, nPerm, nLoad, nStale := 2, 24, 16, 6
 	if tier == "thorough" {
-		nTrunc, nPerm, nLoad = 12, 400, 200
+		nTrunc, nPerm, nLoad, nStale = 12, 400, 200, 60
 	}
 	for i := 0; i < nTrunc; i++ {
 		j = append(j, job{"truncate", i, 0, 0})
@@ -27,6 +28,9 @@ func extraJobs(tier string) []job {
 	}
 	for i := 0; i < nLoad; i++ {
 		j = append(j, job{"load", i, 0, 0})
+	}
+	for i := 0; i < nStale; i++ {
+		j = append(j, job{"stale", i, 0, 0})
 	}
 	return j
 }
@@ -39,6 +43,8 @@ func runExtra(seed int64, j job) ScenarioOut {
 		return scenarioPerm(seed, j.idx)
 	case "load":
 		return scenarioLoad(seed, j.idx)
+	case "stale":
+		return scenarioStale(seed, j.idx)
 	}
 	return ScenarioOut{Name: j.kind, Stats: map[string]int{}}
 }
@@ -91,7 +97,7 @@ func (w *World) coqLedger(s *accountant.VerifSnapshot, self string) string {
 // ---------------------------------------------------------------- truncation histories (C07, C08, C14-after-truncation)
 
 func scenarioTruncate(seed int64, idx int) ScenarioOut {
-	w := newWorld(seed*7000003+int64(idx), 7)
+	w := newWorld(seed*7000003+int64(idx), 8)
 	r := w.rng
 	s := &sim{w: w, bal: map[string]int64{}, pending: map[int][]*accountant.Vertex{}, clock: time.Now().Add(-time.Hour)}
 	s.genesisSigner, s.recvRich, s.users = w.wallets[0], w.wallets[1], w.wallets[1:5]
@@ -110,252 +116,295 @@ func scenarioTruncate(seed int64, idx int) ScenarioOut {
 		}
 		return ref[a]
 	}
-	target := 1010 + r.Intn(150)
 	braid := idx%2 == 1
 	sealer := w.wallets[5]
-	for k := 0; k < target; k++ {
-		// pick an issuer that holds funds (on the reference), small amounts so nobody runs dry
-		issuer := s.users[r.Intn(len(s.users))]
-		for tries := 0; tries < 8 && get(issuer.Address()).Cmp(big.NewInt(2e18)) < 0; tries++ {
-			issuer = s.users[r.Intn(len(s.users))]
-		}
-		if get(issuer.Address()).Cmp(big.NewInt(2e18)) < 0 {
-			issuer = s.recvRich
-		}
-		recv := w.wallets[1+r.Intn(4)]
-		amt := spice.Melange{Currency: uint64(r.Intn(2)), SupplementaryCurrency: uint64(1 + r.Int63n(int64(e18)-1))}
-		var data []byte
-		if r.Intn(20) == 0 {
-			data, amt = []byte("note"), spice.Melange{}
-		}
-		t := craftTrx(issuer, recv.Address(), "t", data, amt, s.now())
-		ok := false
-		if braid && k%3 == 2 && len(n.prev.Leaves) >= 1 {
-			// a gossiped vertex on top of the current tip(s): widens the DAG
-			sn := n.ab.VerifSnapshot()
-			l := sn.Leaves[r.Intn(len(sn.Leaves))]
-			rr := sn.Leaves[r.Intn(len(sn.Leaves))]
-			var mw uint64
-			for i := range sn.Vertices {
-				if (sn.Vertices[i].Hash == l || sn.Vertices[i].Hash == rr) && sn.Vertices[i].Weight > mw {
-					mw = sn.Vertices[i].Weight
-				}
+	build := func(target int) {
+		for k := 0; k < target; k++ {
+			// pick an issuer that holds funds (on the reference), small amounts so nobody runs dry
+			issuer := s.users[r.Intn(len(s.users))]
+			for tries := 0; tries < 8 && get(issuer.Address()).Cmp(big.NewInt(2e18)) < 0; tries++ {
+				issuer = s.users[r.Intn(len(s.users))]
 			}
-			v, _ := accountant.NewVertex(t, l, rr, mw+1, sealer)
-			ok = n.addQuiet(&v) == "ROk"
-		} else {
-			_, cls := n.createQuiet(&t)
-			ok = cls == "ROk"
-		}
-		if ok && amt.Currency+amt.SupplementaryCurrency > 0 {
-			get(issuer.Address()).Sub(get(issuer.Address()), valBig(amt))
-			get(recv.Address()).Add(get(recv.Address()), valBig(amt))
-		}
-	}
-	// a stale side tip hanging off an old vertex (does not descend from the cut)
-	before := n.ab.VerifSnapshot()
-	n.prev = before
-	n.steps = nil // model state is injected from `before`
-	n.ops = []string{fmt.Sprintf("(history of %d vertices built by proposals%s; model state injected from the snapshot)", len(before.Vertices), map[bool]string{true: " and gossiped merges", false: ""}[braid])}
-	initL := w.coqLedger(&before, n.signer.Address())
-	n.snapEvery = true
-	// observations before truncation
-	type obsT struct {
-		bal map[string]string
-		vtx map[[32]byte]string
-		trx map[[32]byte]string
-	}
-	observe := func() obsT {
-		o := obsT{bal: map[string]string{}, vtx: map[[32]byte]string{}, trx: map[[32]byte]string{}}
-		for _, wl := range w.wallets {
-			b, err := n.ab.CalculateBalance(context.Background(), wl.Address())
-			o.bal[wl.Address()] = fmt.Sprintf("%v/%v", b.Spice, err != nil)
-		}
-		for i := range before.Vertices {
-			v := &before.Vertices[i]
-			got, err := n.ab.ReadVertex(context.Background(), v.Hash)
-			enc, _ := got.VerifEncode()
-			o.vtx[v.Hash] = fmt.Sprintf("%x/%v", enc, err != nil)
-			tr, err := n.ab.ReadTransactionByHash(context.Background(), v.Transaction.Hash)
-			te, _ := tr.Encode()
-			o.trx[v.Transaction.Hash] = fmt.Sprintf("%x/%v", te, err != nil)
-		}
-		return o
-	}
-	singleTip := len(before.Leaves) == 1
-	o0 := observe()
-	// ---- truncate (watchdog: a hang is a C08 violation, reported there)
-	done := make(chan error, 1)
-	go func() {
-		err, pn := safely(func() error { return n.ab.VerifTruncate(context.Background()) })
-		if pn {
-			n.violate("C08", "truncate-panics", err.Error())
-		}
-		done <- err
-	}()
-	var terr error
-	select {
-	case terr = <-done:
-	case <-time.After(90 * time.Second):
-		n.violate("C08", "truncate-hangs", "truncate did not return within 90 s")
-		return s.out("truncate", false)
-	}
-	after := n.ab.VerifSnapshot()
-	// which vertex was the cut: the live vertex whose ancestors (before) are exactly the moved set
-	moved := map[[32]byte]bool{}
-	pvw := mkView(&before)
-	for i := range after.StoredVertices {
-		h := after.StoredVertices[i].Hash
-		if _, was := pvw.stored[h]; !was {
-			moved[h] = true
-		}
-	}
-	cut := 0
-	for i := range after.Vertices {
-		c := &after.Vertices[i]
-		hist := pvw.history(c.Hash)
-		if len(hist)-1 != len(moved) || len(moved) == 0 {
-			continue
-		}
-		all := true
-		for _, a := range hist[1:] {
-			if !moved[a.Hash] {
-				all = false
+			if get(issuer.Address()).Cmp(big.NewInt(2e18)) < 0 {
+				issuer = s.recvRich
 			}
-		}
-		if all {
-			cut = w.H(c.Hash)
-			break
-		}
-	}
-	n.stats["trunc.moved"] += len(moved)
-	n.record(fmt.Sprintf("(OTruncate %d [])", cut), "(BRes "+classify(terr)+")", fmt.Sprintf("truncate -> %v, moved %d vertices, cut=%d", terr, len(moved), cut), "truncate", nil)
-	if terr == nil && len(moved) > 0 {
-		n.stats["trunc.completed"]++
-	}
-	// ---- C07 monitors
-	o1 := observe()
-	if terr == nil {
-		if singleTip { // every tip descends from the cut
-			for a, b0 := range o0.bal {
-				if o1.bal[a] != b0 {
-					key := "balance-changed-by-truncation"
-					if len(b0) > 5 && b0[len(b0)-5:] == "/true" && o1.bal[a] == "0.0/false" {
-						// the query failed before (negative sum) and reports 0.0 afterwards
-						key = "overdrawn-wallet-reset-by-truncation"
+			recv := w.wallets[1+r.Intn(4)]
+			amt := spice.Melange{Currency: uint64(r.Intn(2)), SupplementaryCurrency: uint64(1 + r.Int63n(int64(e18)-1))}
+			var data []byte
+			if r.Intn(20) == 0 {
+				data, amt = []byte("note"), spice.Melange{}
+			}
+			t := craftTrx(issuer, recv.Address(), "t", data, amt, s.now())
+			ok := false
+			if braid && k%3 == 2 && len(n.prev.Leaves) >= 1 {
+				// a gossiped vertex on top of the current tip(s): widens the DAG
+				sn := n.ab.VerifSnapshot()
+				l := sn.Leaves[r.Intn(len(sn.Leaves))]
+				rr := sn.Leaves[r.Intn(len(sn.Leaves))]
+				var mw uint64
+				for i := range sn.Vertices {
+					if (sn.Vertices[i].Hash == l || sn.Vertices[i].Hash == rr) && sn.Vertices[i].Weight > mw {
+						mw = sn.Vertices[i].Weight
 					}
-					n.violate("C07", key, fmt.Sprintf("wallet %d: %s before, %s after truncation (value/error)", w.A(a), b0, o1.bal[a]))
 				}
+				v, _ := accountant.NewVertex(t, l, rr, mw+1, sealer)
+				ok = n.addQuiet(&v) == "ROk"
+			} else {
+				_, cls := n.createQuiet(&t)
+				ok = cls == "ROk"
+			}
+			if ok && amt.Currency+amt.SupplementaryCurrency > 0 {
+				get(issuer.Address()).Sub(get(issuer.Address()), valBig(amt))
+				get(recv.Address()).Add(get(recv.Address()), valBig(amt))
 			}
 		}
-		for h, e0 := range o0.vtx {
-			if o1.vtx[h] != e0 {
-				n.violate("C07", "vertex-read-changed", fmt.Sprintf("vertex %d reads differently after truncation", w.H(h)))
-			}
+	}
+	// a wallet that is paid once at the very beginning (so the payment is checkpointed by the first truncation), spends exactly
+	// everything after it and is never paid again: at the second truncation its checkpoint must go back to exactly zero
+	drainer := w.wallets[7]
+	{
+		amt := spice.Melange{Currency: 3, SupplementaryCurrency: 7}
+		t := craftTrx(s.recvRich, drainer.Address(), "to-drainer", nil, amt, s.now())
+		if _, cls := n.createQuiet(&t); cls == "ROk" {
+			get(s.recvRich.Address()).Sub(get(s.recvRich.Address()), valBig(amt))
+			get(drainer.Address()).Add(get(drainer.Address()), valBig(amt))
 		}
-		for h, e0 := range o0.trx {
-			if o1.trx[h] != e0 {
-				n.violate("C07", "transaction-read-changed", fmt.Sprintf("transaction %d reads differently after truncation", w.H(h)))
-			}
+	}
+	build(1010 + r.Intn(150))
+	rounds := 1 + (idx+1)%2 // every other history is truncated twice (repeated truncation)
+	var roundTraces []string
+	var roundOps [][]string
+	for round := 0; round < rounds; round++ {
+		if round > 0 {
+			build(1010 + r.Intn(60))
 		}
-		// stored funds = net flow of exactly the stored vertices, each counted once
-		net := map[string]*big.Int{}
+		// a stale side tip hanging off an old vertex (does not descend from the cut)
+		before := n.ab.VerifSnapshot()
+		n.prev = before
+		n.steps = nil // model state is injected from `before`
+		n.ops = nil   // steps and op log stay aligned; the injected history is described in the trace name
+		n.stats[fmt.Sprintf("trunc.history_vertices.%d00s", len(before.Vertices)/100)]++
+		initL := w.coqLedger(&before, n.signer.Address())
+		n.snapEvery = true
+		// observations before truncation
+		type obsT struct {
+			bal map[string]string
+			vtx map[[32]byte]string
+			trx map[[32]byte]string
+		}
+		observe := func() obsT {
+			o := obsT{bal: map[string]string{}, vtx: map[[32]byte]string{}, trx: map[[32]byte]string{}}
+			for _, wl := range w.wallets {
+				b, err := n.ab.CalculateBalance(context.Background(), wl.Address())
+				o.bal[wl.Address()] = fmt.Sprintf("%v/%v", b.Spice, err != nil)
+			}
+			for i := range before.Vertices {
+				v := &before.Vertices[i]
+				got, err := n.ab.ReadVertex(context.Background(), v.Hash)
+				enc, _ := got.VerifEncode()
+				o.vtx[v.Hash] = fmt.Sprintf("%x/%v", enc, err != nil)
+				tr, err := n.ab.ReadTransactionByHash(context.Background(), v.Transaction.Hash)
+				te, _ := tr.Encode()
+				o.trx[v.Transaction.Hash] = fmt.Sprintf("%x/%v", te, err != nil)
+			}
+			return o
+		}
+		singleTip := len(before.Leaves) == 1
+		o0 := observe()
+		// ---- truncate (watchdog: a hang is a C08 violation, reported there)
+		done := make(chan error, 1)
+		go func() {
+			err, pn := safely(func() error { return n.ab.VerifTruncate(context.Background()) })
+			if pn {
+				n.violate("C08", "truncate-panics", err.Error())
+			}
+			done <- err
+		}()
+		var terr error
+		select {
+		case terr = <-done:
+		case <-time.After(90 * time.Second):
+			n.violate("C08", "truncate-hangs", "truncate did not return within 90 s")
+			return s.out("truncate", false)
+		}
+		after := n.ab.VerifSnapshot()
+		// which vertex was the cut: the live vertex whose ancestors (before) are exactly the moved set
+		moved := map[[32]byte]bool{}
+		pvw := mkView(&before)
 		for i := range after.StoredVertices {
-			v := &after.StoredVertices[i]
-			if !v.Transaction.IsSpiceTransfer() {
+			h := after.StoredVertices[i].Hash
+			if _, was := pvw.stored[h]; !was {
+				moved[h] = true
+			}
+		}
+		cut := 0
+		for i := range after.Vertices {
+			c := &after.Vertices[i]
+			hist := pvw.history(c.Hash)
+			if len(hist)-1 != len(moved) || len(moved) == 0 {
 				continue
 			}
-			for _, a := range []string{v.Transaction.IssuerAddress, v.Transaction.ReceiverAddress} {
-				if net[a] == nil {
-					net[a] = new(big.Int)
+			all := true
+			for _, a := range hist[1:] {
+				if !moved[a.Hash] {
+					all = false
 				}
 			}
-			net[v.Transaction.IssuerAddress].Sub(net[v.Transaction.IssuerAddress], valBig(v.Transaction.Spice))
-			net[v.Transaction.ReceiverAddress].Add(net[v.Transaction.ReceiverAddress], valBig(v.Transaction.Spice))
-		}
-		for a, x := range net {
-			if a == after.Genesis {
-				continue // the issuer of genesis is overdrawn by construction; the code keeps its funds at 0
-			}
-			got, ok := after.StoredFunds[a]
-			if !ok || valBig(got).Cmp(x) != 0 {
-				n.violate("C07", "checkpoint-funds-not-net-flow", fmt.Sprintf("wallet %d: checkpointed %v, net flow of stored vertices %s", w.A(a), got, x))
-			}
-		}
-		// re-submission of checkpointed material
-		cnt := 0
-		for i := range after.StoredVertices {
-			if cnt >= 3 {
+			if all {
+				cut = w.H(c.Hash)
 				break
 			}
-			v := after.StoredVertices[i]
-			if v.Transaction.IssuerAddress == after.Genesis {
-				continue
-			}
-			cnt++
-			if cls := n.add(&v, -1); cls != "RVertexExists" {
-				n.violate("C07", "checkpointed-vertex-readmitted", fmt.Sprintf("re-offering checkpointed vertex %d -> %s", w.H(v.Hash), cls))
-			}
-			tr := v.Transaction
-			if _, cls := n.create(&tr, -1); cls != "RTrxExists" && cls != "ROwnNode" {
-				n.violate("C07", "checkpointed-trx-resealed", fmt.Sprintf("re-proposing checkpointed transaction %d -> %s", w.H(tr.Hash), cls))
-			}
-			if len(after.Leaves) > 0 {
-				nv, _ := accountant.NewVertex(tr, after.Leaves[0], after.Leaves[0], v.Weight+2000, sealer)
-				if cls := n.add(&nv, -1); cls == "ROk" || cls == "RParentMissing" {
-					n.violate("C07", "checkpointed-trx-resealed", fmt.Sprintf("checkpointed transaction %d admitted in a new wrapper -> %s", w.H(tr.Hash), cls))
+		}
+		n.stats["trunc.moved"] += len(moved)
+		n.record(fmt.Sprintf("(OTruncate %d [])", cut), "(BRes "+classify(terr)+")", fmt.Sprintf("truncate -> %v, moved %d vertices, cut=%d", terr, len(moved), cut), "truncate", nil)
+		if terr == nil && len(moved) > 0 {
+			n.stats["trunc.completed"]++
+		}
+		// ---- C07 monitors
+		o1 := observe()
+		if terr == nil {
+			if singleTip { // every tip descends from the cut
+				for a, b0 := range o0.bal {
+					if o1.bal[a] != b0 {
+						key := "balance-changed-by-truncation"
+						if len(b0) > 5 && b0[len(b0)-5:] == "/true" && o1.bal[a] == "0.0/false" {
+							// the query failed before (negative sum) and reports 0.0 afterwards
+							key = "overdrawn-wallet-reset-by-truncation"
+						}
+						n.violate("C07", key, fmt.Sprintf("wallet %d: %s before, %s after truncation (value/error)", w.A(a), b0, o1.bal[a]))
+					}
 				}
 			}
-		}
-		// later transfers validate against the same funds: spend (almost) everything a wallet holds, then one unit more
-		for _, u := range s.users[:2] {
-			have := get(u.Address())
-			if have.Sign() <= 0 {
-				continue
-			}
-			q, m := new(big.Int).QuoRem(have, e18big, new(big.Int))
-			all := spice.Melange{Currency: q.Uint64(), SupplementaryCurrency: m.Uint64()}
-			t := craftTrx(u, s.recvRich.Address(), "all", nil, all, s.now())
-			if _, cls := n.create(&t, -1); cls == "ROk" {
-				get(u.Address()).Sub(get(u.Address()), valBig(all))
-				get(s.recvRich.Address()).Add(get(s.recvRich.Address()), valBig(all))
-			}
-			t2 := craftTrx(u, s.recvRich.Address(), "over", nil, spice.Melange{SupplementaryCurrency: 1}, s.now())
-			n.create(&t2, -1)
-			t3 := craftTrx(s.recvRich, u.Address(), "next", nil, spice.Melange{SupplementaryCurrency: 5}, s.now())
-			if _, cls := n.create(&t3, -1); cls == "ROk" {
-				get(u.Address()).Add(get(u.Address()), big.NewInt(5))
-				get(s.recvRich.Address()).Sub(get(s.recvRich.Address()), big.NewInt(5))
-			}
-			t4 := craftTrx(s.recvRich, u.Address(), "next2", nil, spice.Melange{SupplementaryCurrency: 5}, s.now())
-			if _, cls := n.create(&t4, -1); cls == "ROk" {
-				get(u.Address()).Add(get(u.Address()), big.NewInt(5))
-				get(s.recvRich.Address()).Sub(get(s.recvRich.Address()), big.NewInt(5))
-			}
-		}
-		for _, wl := range w.wallets[:5] {
-			got, err := n.balance(wl.Address(), -1)
-			if len(n.prev.Leaves) == 1 && braid == false {
-				want := get(wl.Address())
-				if want.Sign() >= 0 && (err != nil || valBig(got).Cmp(want) != 0) {
-					// the last created tip may be an overdraft attempt that is still tentative: tolerate exactly that
-					n.stats["trunc.balance_vs_reference_diff"]++
+			for h, e0 := range o0.vtx {
+				if o1.vtx[h] != e0 {
+					n.violate("C07", "vertex-read-changed", fmt.Sprintf("vertex %d reads differently after truncation", w.H(h)))
 				}
 			}
+			for h, e0 := range o0.trx {
+				if o1.trx[h] != e0 {
+					n.violate("C07", "transaction-read-changed", fmt.Sprintf("transaction %d reads differently after truncation", w.H(h)))
+				}
+			}
+			// stored funds = net flow of exactly the stored vertices, each counted once
+			net := map[string]*big.Int{}
+			for i := range after.StoredVertices {
+				v := &after.StoredVertices[i]
+				if !v.Transaction.IsSpiceTransfer() {
+					continue
+				}
+				for _, a := range []string{v.Transaction.IssuerAddress, v.Transaction.ReceiverAddress} {
+					if net[a] == nil {
+						net[a] = new(big.Int)
+					}
+				}
+				net[v.Transaction.IssuerAddress].Sub(net[v.Transaction.IssuerAddress], valBig(v.Transaction.Spice))
+				net[v.Transaction.ReceiverAddress].Add(net[v.Transaction.ReceiverAddress], valBig(v.Transaction.Spice))
+			}
+			for a, x := range net {
+				if a == after.Genesis {
+					continue // the issuer of genesis is overdrawn by construction; the code keeps its funds at 0
+				}
+				got, ok := after.StoredFunds[a]
+				if !ok || valBig(got).Cmp(x) != 0 {
+					n.violate("C07", "checkpoint-funds-not-net-flow", fmt.Sprintf("wallet %d: checkpointed %v, net flow of stored vertices %s", w.A(a), got, x))
+				}
+			}
+			// re-submission of checkpointed material
+			cnt := 0
+			for i := range after.StoredVertices {
+				if cnt >= 3 {
+					break
+				}
+				v := after.StoredVertices[i]
+				if v.Transaction.IssuerAddress == after.Genesis {
+					continue
+				}
+				cnt++
+				if cls := n.add(&v, -1); cls != "RVertexExists" {
+					n.violate("C07", "checkpointed-vertex-readmitted", fmt.Sprintf("re-offering checkpointed vertex %d -> %s", w.H(v.Hash), cls))
+				}
+				tr := v.Transaction
+				if _, cls := n.create(&tr, -1); cls != "RTrxExists" && cls != "ROwnNode" {
+					n.violate("C07", "checkpointed-trx-resealed", fmt.Sprintf("re-proposing checkpointed transaction %d -> %s", w.H(tr.Hash), cls))
+				}
+				if len(after.Leaves) > 0 {
+					nv, _ := accountant.NewVertex(tr, after.Leaves[0], after.Leaves[0], v.Weight+2000, sealer)
+					if cls := n.add(&nv, -1); cls == "ROk" || cls == "RParentMissing" {
+						n.violate("C07", "checkpointed-trx-resealed", fmt.Sprintf("checkpointed transaction %d admitted in a new wrapper -> %s", w.H(tr.Hash), cls))
+					}
+				}
+			}
+			// later transfers validate against the same funds: spend (almost) everything a wallet holds, then one unit more
+			// the drainer spends exactly everything once, after the first truncation, and is never paid again
+			if have := get(drainer.Address()); round == 0 && have.Sign() > 0 {
+				q, m := new(big.Int).QuoRem(have, e18big, new(big.Int))
+				all := spice.Melange{Currency: q.Uint64(), SupplementaryCurrency: m.Uint64()}
+				t := craftTrx(drainer, s.recvRich.Address(), "drain-all", nil, all, s.now())
+				if _, cls := n.create(&t, -1); cls == "ROk" {
+					get(drainer.Address()).Sub(get(drainer.Address()), valBig(all))
+					get(s.recvRich.Address()).Add(get(s.recvRich.Address()), valBig(all))
+					n.stats["trunc.drainer_spent_all"]++
+				}
+			}
+			for _, u := range s.users[:2] {
+				have := get(u.Address())
+				if have.Sign() <= 0 {
+					continue
+				}
+				q, m := new(big.Int).QuoRem(have, e18big, new(big.Int))
+				all := spice.Melange{Currency: q.Uint64(), SupplementaryCurrency: m.Uint64()}
+				t := craftTrx(u, s.recvRich.Address(), "all", nil, all, s.now())
+				if _, cls := n.create(&t, -1); cls == "ROk" {
+					get(u.Address()).Sub(get(u.Address()), valBig(all))
+					get(s.recvRich.Address()).Add(get(s.recvRich.Address()), valBig(all))
+				}
+				t2 := craftTrx(u, s.recvRich.Address(), "over", nil, spice.Melange{SupplementaryCurrency: 1}, s.now())
+				n.create(&t2, -1)
+				t3 := craftTrx(s.recvRich, u.Address(), "next", nil, spice.Melange{SupplementaryCurrency: 5}, s.now())
+				if _, cls := n.create(&t3, -1); cls == "ROk" {
+					get(u.Address()).Add(get(u.Address()), big.NewInt(5))
+					get(s.recvRich.Address()).Sub(get(s.recvRich.Address()), big.NewInt(5))
+				}
+				t4 := craftTrx(s.recvRich, u.Address(), "next2", nil, spice.Melange{SupplementaryCurrency: 5}, s.now())
+				if _, cls := n.create(&t4, -1); cls == "ROk" {
+					get(u.Address()).Add(get(u.Address()), big.NewInt(5))
+					get(s.recvRich.Address()).Sub(get(s.recvRich.Address()), big.NewInt(5))
+				}
+			}
+			for _, wl := range w.wallets[:5] {
+				got, err := n.balance(wl.Address(), -1)
+				if len(n.prev.Leaves) == 1 && braid == false {
+					want := get(wl.Address())
+					if want.Sign() >= 0 && (err != nil || valBig(got).Cmp(want) != 0) {
+						// the last created tip may be an overdraft attempt that is still tentative: tolerate exactly that
+						n.stats["trunc.balance_vs_reference_diff"]++
+					}
+				}
+			}
+			// C14 on a truncated source: the stream can no longer be loaded (known finding)
+			dst := newNode(w, fmt.Sprintf("trunc%d.loaded", idx), w.wallets[6])
+			defer dst.close()
+			stream := streamOf(n)
+			dst.snapEvery = false
+			if !loadInto(dst, stream, w) {
+				n.violate("C14", "truncated-source-not-loadable", fmt.Sprintf("a peer that has truncated streams %d vertices whose cut vertex declares checkpointed parents: LoadDag refuses, checkpointed funds are not transferred", len(stream)))
+			}
+			s.nodes = append(s.nodes, dst)
 		}
-		// C14 on a truncated source: the stream can no longer be loaded (known finding)
-		dst := newNode(w, fmt.Sprintf("trunc%d.loaded", idx), w.wallets[6])
-		defer dst.close()
-		stream := streamOf(n)
-		dst.snapEvery = false
-		if !loadInto(dst, stream, w) {
-			n.violate("C14", "truncated-source-not-loadable", fmt.Sprintf("a peer that has truncated streams %d vertices whose cut vertex declares checkpointed parents: LoadDag refuses, checkpointed funds are not transferred", len(stream)))
+		roundTraces = append(roundTraces, fmt.Sprintf("(Trace %d (Some %s) %s)", w.A(n.signer.Address()), initL, coqList(n.steps)))
+		roundOps = append(roundOps, n.ops)
+		if terr != nil || len(moved) == 0 {
+			break
 		}
-		s.nodes = append(s.nodes, dst)
+		n.stats[fmt.Sprintf("trunc.round%d_completed", round+1)]++
 	}
 	o := s.out("truncate", true)
-	o.Traces[0] = fmt.Sprintf("(Trace %d (Some %s) %s)", w.A(n.signer.Address()), initL, coqList(n.steps))
-	o.NonTriv = terr == nil && len(moved) > 0
+	o.Traces[0], o.Human[0] = roundTraces[0], roundOps[0]
+	for i, t := range roundTraces[1:] {
+		o.Traces = append(o.Traces, t)
+		o.Human = append(o.Human, roundOps[i+1])
+	}
+	o.NonTriv = n.stats["trunc.completed"] > 0
 	return o
 }
 
@@ -599,5 +648,98 @@ func scenarioLoad(seed int64, idx int) ScenarioOut {
 	s.nodes = []*Node{src, dst}
 	o := s.out("load", true)
 	o.NonTriv = true
+	return o
+}
+
+// ---------------------------------------------------------------- stale pre-checks (C03): callers that passed the unlocked
+// "is this transaction / vertex known?" look-ups queue on the ledger lock together; only one may win and the losers must
+// leave the index exactly as the winner made it.  The lock is held from outside through the public API: a DAG stream whose
+// consumer does not read keeps the ledger read lock once its 100-slot buffer is full.
+func scenarioStale(seed int64, idx int) ScenarioOut {
+	w := newWorld(seed*7700017+int64(idx), 8)
+	n := newNode(w, fmt.Sprintf("stale%d", idx), w.wallets[0])
+	defer n.close()
+	o := ScenarioOut{Name: "stale", Stats: map[string]int{}}
+	rich, recv := w.wallets[1], w.wallets[2]
+	clock := time.Now().Add(-time.Hour)
+	now := func() time.Time { clock = clock.Add(time.Millisecond); return clock }
+	if gv, _ := n.genesis(rich.Address(), spice.Melange{Currency: 100000}); gv == nil {
+		return o
+	}
+	var tip accountant.Vertex
+	for i := 0; i < 125+idx%7; i++ {
+		t := craftTrx(rich, recv.Address(), fmt.Sprintf("fill%d", i), nil, spice.Melange{Currency: 1}, now())
+		v, err := n.ab.CreateLeaf(context.Background(), &t)
+		if err != nil {
+			return o
+		}
+		w.remember(&v)
+		tip = v
+	}
+	prev := n.ab.VerifSnapshot()
+	ctx, cancel := context.WithCancel(context.Background())
+	ch := n.ab.StreamDAG(ctx)
+	time.Sleep(40 * time.Millisecond)
+	tp := craftTrx(rich, recv.Address(), "dup-proposal", nil, spice.Melange{Currency: 5}, now())
+	tg := craftTrx(rich, recv.Address(), "dup-gossip", nil, spice.Melange{Currency: 7}, now())
+	vg, _ := accountant.NewVertex(tg, tip.Hash, tip.Hash, tip.Weight+1, w.wallets[5])
+	vg2, _ := accountant.NewVertex(tg, tip.Hash, tip.Hash, tip.Weight+1, w.wallets[6]) // the same transaction in another wrapper
+	w.remember(&vg)
+	w.remember(&vg2)
+	var wg sync.WaitGroup
+	var mu sync.Mutex
+	okCreate, okAdd := 0, 0
+	run := func(f func() error, cnt *int) {
+		wg.Add(1)
+		go func() {
+			defer wg.Done()
+			defer func() { recover() }()
+			if f() == nil {
+				mu.Lock()
+				*cnt++
+				mu.Unlock()
+			}
+		}()
+	}
+	for k := 0; k < 2+idx%2; k++ {
+		run(func() error { t := tp; _, err := n.ab.CreateLeaf(context.Background(), &t); return err }, &okCreate)
+		run(func() error { v := vg; return n.ab.AddLeaf(context.Background(), &v) }, &okAdd)
+	}
+	run(func() error { v := vg2; return n.ab.AddLeaf(context.Background(), &v) }, &okAdd)
+	time.Sleep(60 * time.Millisecond) // every caller has passed the unlocked look-ups and waits for the ledger lock
+	cancel()
+	for range ch {
+	}
+	wg.Wait()
+	cur := n.ab.VerifSnapshot()
+	n.monitors(&prev, &cur, "stale", nil)
+	n.prev = cur
+	o.Steps += 5
+	n.stats["stale.rounds"]++
+	n.stats[fmt.Sprintf("stale.proposals_ok.%d", okCreate)]++
+	n.stats[fmt.Sprintf("stale.deliveries_ok.%d", okAdd)]++
+	if okCreate > 1 {
+		n.violate("C03", "duplicate-proposal-sealed-twice", fmt.Sprintf("%d concurrent proposals of one transaction all succeeded", okCreate))
+	}
+	if okAdd > 1 {
+		n.violate("C03", "duplicate-delivery-admitted-twice", fmt.Sprintf("%d concurrent deliveries carrying one transaction all succeeded", okAdd))
+	}
+	// afterwards every replay must be refused (recorded steps: the monitors run on each)
+	n.snapEvery = false
+	if _, cls := n.create(&tp, -1); cls == "ROk" {
+		n.violate("C03", "replay-after-concurrent-proposals-sealed", "a transaction proposed concurrently (one winner) was sealed again by a later sequential proposal")
+	}
+	if cls := n.add(&vg2, -1); cls == "ROk" && okAdd > 0 {
+		n.violate("C03", "replay-after-concurrent-deliveries-admitted", "a transaction delivered concurrently in two wrappers was admitted again in the other wrapper")
+	}
+	if cls := n.add(&vg, -1); cls == "ROk" && okAdd > 0 {
+		n.violate("C03", "replay-after-concurrent-deliveries-admitted", "a vertex delivered concurrently was admitted again")
+	}
+	o.Viol = n.viol
+	for k, v := range n.stats {
+		o.Stats[k] += v
+	}
+	o.Steps += len(n.steps)
+	o.NonTriv = okCreate+okAdd > 0
 	return o
 }
